@@ -185,7 +185,7 @@ def gen_loop(tier, seed):
         c = g.case("hi%d" % len(cases)); c.meta["no_errors"] = True
         cases.append(c)
     # every short open/close history, with calls in flight
-    for c in mg.id_lifecycle_cases(Rng(seed + 7), 2, 5 if tier == "quick" else 7, stride=1, prefix="l"):
+    for c in mg.id_lifecycle_cases(Rng(seed + 7), 2, 5 if tier == "quick" else 6, stride=1, prefix="l"):
         c.meta["no_errors"] = True
         cases.append(c)
     # channels opened and closed while the loop is throttled (non-zero channels deregistered)
